@@ -57,7 +57,21 @@ impl D {
     pub fn rust_name(&self) -> String {
         match self.kind {
             Kind::Value => self.name.to_uppercase().replace('-', "_"),
-            _ => self.name.replace('-', "_"),
+            // title case as the backend spells type names: a hyphen disappears and the next character is upper-cased
+            _ => {
+                let mut acc = String::new();
+                for c in self.name.replace('-', "_").chars() {
+                    if acc.is_empty() && c.is_lowercase() {
+                        acc.push(c.to_ascii_uppercase());
+                    } else if acc.ends_with('_') {
+                        acc.pop();
+                        acc.push(c.to_ascii_uppercase());
+                    } else {
+                        acc.push(c);
+                    }
+                }
+                acc
+            }
         }
     }
     pub fn to_json(&self) -> Value {
@@ -267,6 +281,13 @@ impl<'a> Gen<'a> {
             let mut ds = self.make(&format!("{uid}x{k}e"), &avail);
             defs.append(&mut ds);
             k += 1;
+        }
+        // a type whose name consists of capital letters (and hyphens) only — like a class name, but a type; added
+        // last so that no generated value is governed by it (that would be the known object-lexing finding)
+        if self.rng.chance(1, 3) {
+            let letters: String = uid.chars().map(|c| if c.is_ascii_digit() { (b'A' + (c as u8 - b'0')) as char } else { 'X' }).collect();
+            let tn = format!("{}{letters}", ["UUID", "IA-", "U-ID-"][self.rng.below(3)]);
+            defs.push(D { text: format!("{tn} ::= INTEGER (0..255)"), name: tn, kind: Kind::Type, shape: "Int".into(), refs: vec![], fault: None });
         }
         M { name: name.into(), tagging: self.rng.below(4), ext: self.rng.chance(1, 3), imports: vec![], defs }
     }
